@@ -332,6 +332,7 @@ class World:
         self.on_task: Callable[[dict[str, Any]], None] | None = None
         self.handler_errors: list[str] = []
         self.handled: list[tuple[str, str]] = []  # (message type, row id) in handling order
+        self.cancel_seen: list[Any] = []  # durable workflow status when each CancelWorkflow message was polled
         self.bus_log: list[Any] = []
         self.signal_seen: list[str | None] = []
         self.handler_calls: list[tuple[str, str, str]] = []  # durable stage status when each SignalStage was handled
@@ -656,6 +657,9 @@ class World:
         self.handled.append((mtype, str(row_id)))
         if mtype == "SignalStage":
             self.signal_seen.append(self.peek_stage_status(msg.stage_id))
+        if mtype == "CancelWorkflow":
+            r_ = self.q("SELECT status FROM pipeline_executions WHERE id=?", getattr(msg, "execution_id", ""))
+            self.cancel_seen.append(r_[0][0] if r_ else None)
         try:
             self._in_deliver = True
             try:
